@@ -158,8 +158,24 @@ def genHdr (cfg : Cfg) (pt : Nat) (dims : Nat × Nat) (tr quant : Nat) : G HdrD 
                   cpm := if cpm = 0 then some 2 else none, extra := extra })
   | _ =>
     let (w, h) := dims
-    pure (.plus { tr := tr % 256, ufep := true, srcFmt := 6, picType := if pt = 0 then 0 else 1, par := 2,
-                  pwi := (w + 3) / 4 - 1, phi := (h + 3) / 4, quant := quant, extra := extra })
+    -- UFEP = 000 on half of the predicted pictures (format and OPPTYPE-class modes inherited from the previous picture); rarely
+    -- an I picture without a format (rejected), modified quantization (unimplemented) or UMV (the other MVD code);
+    -- the modes the decoder parses and ignores are switched on at random
+    let inh ← coin 1 2
+    let odd ← below 24
+    let m ← below 256
+    let pcf ← coin 1 4
+    let etr ← below 4
+    let cpcfc ← below 256
+    let rt ← coin 1 2
+    let cpm ← below 8
+    let unl ← coin 1 2
+    let ufep := if pt = 0 then odd != 0 else !inh
+    pure (.plus { tr := tr % 256, ufep := ufep, srcFmt := 6, customPcf := pcf, umv := odd = 2, sac := m % 2 = 1, ap := m / 2 % 2 = 1,
+                  aic := m / 4 % 2 = 1, df := m / 8 % 2 = 1, ss := m / 16 % 2 = 1, isd := m / 32 % 2 = 1, aiv := m / 64 % 2 = 1,
+                  mq := odd = 1, picType := if pt = 0 then 0 else 1, rtype := rt, cpm := if cpm = 0 then some 1 else none, par := 2,
+                  pwi := (w + 3) / 4 - 1, phi := (h + 3) / 4, cpcfc := cpcfc, etr := etr, uuiUnlimited := unl, sssRect := m / 128 = 1,
+                  quant := quant, extra := extra })
 
 /-- the dimensions the flavour will actually signal for a wish `dims` -/
 def realDims (cfg : Cfg) (dims : Nat × Nat) : Nat × Nat :=
